@@ -160,7 +160,7 @@ m=dict(version=1,
   setup_cmd="cd /verif && ./check build",
   hooks=dict(guard="oxidd_verif", enable='RUSTFLAGS="--cfg oxidd_verif --check-cfg=cfg(oxidd_verif)" (set in /verif/harness/.cargo/config.toml)',
              baseline_off_cmd="cd /repo && cargo nextest run --workspace --no-fail-fast --offline || cargo test --workspace --no-fail-fast --offline",
-             source_commits=[c.split()[0] for c in commits], add_only=True),
+             source_commits=[c.split()[0] for c in commits], add_only=False),
   engines=[dict(name="vcheck", path="/verif/harness/vcheck", serves_properties=sorted(CLAIMED), kind_free_text="driver/worker bounded-exhaustive explorer over the real OxiDD code (Rust), reference models in model.rs")],
   checks=checks, not_applicable=na,
   notes="All checks: exit 0 = held on everything explored; exit 1 + VIOLATION line; exit 2 = machinery error. Known findings: /verif/known_findings.json.")
